@@ -64,9 +64,11 @@ def insert (c : Cache) (h : Hash) (n : CNode) : Cache :=
   | some _ => c
   | none => (h, n) :: c
 
+def CNode.addExt (n : CNode) (child : Hash) : CNode := { n with ext := n.ext ++ [child] }
+
 /-- add `child` to the external children of `parent` (the `children` map). -/
 def addExt (c : Cache) (parent child : Hash) : Cache :=
-  c.map fun kn => if kn.1 == parent then (kn.1, { kn.2 with ext := kn.2.ext ++ [child] }) else kn
+  c.map fun kn => if kn.1 == parent then (kn.1, kn.2.addExt child) else kn
 
 /-- `db.reference(child, parent)` for a non-meta-root parent.
     * child not cached: "it's a node pulled from disk, skip";
@@ -84,9 +86,10 @@ def reference (c : Cache) (child parent : Hash) : Option Cache :=
 /-- the leaf callback of `AccountDB.Commit`:
     `if account.Root != emptyData { Reference(account.Root, parent) }`,
     `if code != emptyCode { Reference(code, parent) }`. -/
-def leafRefs (emptyData emptyCode : Hash) (c : Cache) (parent root code : Hash) : Option Cache := do
-  let c1 ← if root != emptyData then reference c root parent else some c
-  if code != emptyCode then reference c1 code parent else some c1
+def leafRefs (emptyData emptyCode : Hash) (c : Cache) (parent root code : Hash) : Option Cache :=
+  match (if root != emptyData then reference c root parent else some c) with
+  | none => none
+  | some c1 => if code != emptyCode then reference c1 code parent else some c1
 
 /-- `hasher.store` on a node that is persisted: `db.insert` and then, when the
     node holds an account leaf and a callback is installed, the callback. -/
@@ -187,9 +190,11 @@ def die (s : St) : St := ⟨[], s.disk⟩
 def sameMembers (a b : List Hash) : Bool :=
   a.length == b.length && a.all (fun x => b.contains x) && b.all (fun x => a.contains x)
 
+def CNode.setExt (n : CNode) (ord : List Hash) : CNode := { n with ext := ord }
+
 def reorderExt (c : Cache) (h : Hash) (ord : List Hash) : Cache :=
   c.map fun kn =>
-    if kn.1 == h && sameMembers ord kn.2.ext then (kn.1, { kn.2 with ext := ord }) else kn
+    if kn.1 == h && sameMembers ord kn.2.ext then (kn.1, kn.2.setExt ord) else kn
 
 /-! ## the state machine the driver executes -/
 
@@ -234,13 +239,17 @@ def Res.and : Res → Res → Res
   | _, .fuel => .fuel
   | .ok, .ok => .ok
 
+def Res.all : List Res → Res
+  | [] => .ok
+  | r :: rs => Res.and r (Res.all rs)
+
 /-- can `h` be fully read through `get` (every needed hash present, recursively)? -/
 def resolve (get : Hash → Option DNode) : Nat → Hash → Res
   | 0, _ => .fuel
   | f + 1, h =>
     match get h with
     | none => .missing
-    | some n => (n.need.map (resolve get f)).foldl Res.and .ok
+    | some n => Res.all (n.need.map (resolve get f))
 
 /-- the tree a reader sees below `h`: number of node visits and sum of tags. -/
 def view (get : Hash → Option DNode) : Nat → Hash → Option (Nat × Nat)
